@@ -60,7 +60,16 @@ func c02Specs(tier string) []*Spec {
 		specs = append(specs, &Spec{Weight: 1 << uint(depth-3), ID: "C02", Name: "hashquery/5keys/d" + itoa(depth), Cfg: defaultCfg, Keys: bs("a", "b", "c", "d", "e"), Vals: bs("x"), MaxDepth: depth, MaxMaint: 0,
 			UnboundedReads: true, Alphabet: hq.Ops, Oracles: []Oracle{oracleHashes()}})
 	}
+	// rollback-and-redo with a warm node cache: commit, read (fills the cache), roll back, commit other contents
+	// under the same node keys, then write next to them - a narrow alphabet explored deep enough for that
+	redo := Alpha{Writes: true, NoRemove: true, Save: true, LVFO: true, ReadAll: true, MaxVersions: 2}
+	addRedo := func(name string, cfg Cfg, depth int) {
+		specs = append(specs, &Spec{Weight: 16, ID: "C02", Name: name, Cfg: cfg, Keys: bs("a", "b"), Vals: bs("x", "y"), MaxDepth: depth, MaxMaint: 1,
+			Alphabet: redo.Ops, Oracles: []Oracle{oracleHashes()}})
+	}
 	if tier == "quick" {
+		addRedo("redo/cache1000-nofast/2keys/d8", Cfg{Fast: false, Cache: 1000}, 8)
+		addRedo("redo/cache1000/2keys/d8", Cfg{Fast: true, Cache: 1000}, 8)
 		addHQ(7)
 		add("rotations/7keys/d6", defaultCfg, k7, bs("x"), 6, 0, 0, writesOnly)
 		add("maint/3keys/d6", defaultCfg, k3, bs("x", ""), 6, 2, 0, c02Alpha(false))
@@ -80,6 +89,9 @@ func c02Specs(tier string) []*Spec {
 		return specs
 	}
 	addHQ(9)
+	addRedo("redo/cache1000-nofast/2keys/d12", Cfg{Fast: false, Cache: 1000}, 12)
+	addRedo("redo/cache1000/2keys/d12", Cfg{Fast: true, Cache: 1000}, 12)
+	addRedo("redo/cache2-nofast/2keys/d11", Cfg{Fast: false, Cache: 2}, 11)
 	add("rotations/7keys/d8", defaultCfg, k7, bs("x"), 8, 0, 0, writesOnly)
 	add("maint/3keys/d7", defaultCfg, k3, bs("x", ""), 7, 2, 0, c02Alpha(false))
 	add("reads/3keys/d5", defaultCfg, k3, bs("x"), 5, 1, 2, c02Alpha(true))
